@@ -54,6 +54,22 @@ class _Subst(ast.NodeTransformer):
             return clone(self.env[node.id])
         return node
 
+    def visit_Subscript(self, node):
+        node = self.generic_visit(node)
+        if isinstance(getattr(node, "ctx", None), ast.Load):
+            k = "@" + U(node)
+            if k in self.env:
+                return clone(self.env[k])
+        return node
+
+    def visit_Attribute(self, node):
+        node = self.generic_visit(node)
+        if isinstance(getattr(node, "ctx", None), ast.Load):
+            k = "@" + U(node)
+            if k in self.env:
+                return clone(self.env[k])
+        return node
+
     def generic_visit(self, node):
         if isinstance(node, _SCOPES):
             bound = {n.id for g in getattr(node, "generators", [])
